@@ -18,202 +18,12 @@
 use std::collections::BTreeMap;
 use std::fmt::Write as _;
 use std::panic::{catch_unwind, AssertUnwindSafe};
-use std::sync::Mutex;
 use vharness::*;
 use wasm_encoder as we;
 use wasmparser as wp;
-
-// ------------------------------------------------------------------------------------------------
-// panic sites
-
-/// The committed table of known panic site classes: (class, file suffix, enclosing function, message prefix).
-/// The same numbers are listed in coq/Model/ParseGlue.v (`known_panic_sites`) and known_findings.json.
-pub const SITE_TABLE: &[(u64, &str, &str, &str)] = &[
-    (901, "src/ir/module/mod.rs", "parse_internal", "index out of bounds"),
-    (902, "src/ir/module/mod.rs", "parse_internal", "called `Option::unwrap()` on a `None` value"),
-    (903, "src/ir/module/mod.rs", "parse_internal", "producers field"),
-    (904, "src/ir/module/mod.rs", "parse_internal", "values"),
-    (905, "src/ir/module/mod.rs", "parse_internal", "Error encored in tag section!"),
-    (906, "src/ir/types.rs", "eval", "Invalid constant expression"),
-    (907, "src/ir/module/mod.rs", "parse_internal", "no entry found for key"),
-    (908, "src/ir/module/module_types.rs", "params", "Not a function!"),
-    (909, "src/ir/wrappers.rs", "namemap_parser2encoder", "called `Result::unwrap()` on an `Err` value"),
-    (910, "src/ir/wrappers.rs", "indirect_namemap_parser2encoder", "called `Result::unwrap()` on an `Err` value"),
-    (911, "src/ir/wrappers.rs", "add_to_namemap", "called `Result::unwrap()` on an `Err` value"),
-    (912, "src/ir/component.rs", "parse_comp", "range end index"),
-];
-
-static LAST_PANIC: Mutex<Option<(String, u32, String)>> = Mutex::new(None);
-static SRC_CACHE: Mutex<BTreeMap<String, Vec<(u32, String)>>> = Mutex::new(BTreeMap::new());
-
-fn install_hook() {
-    std::panic::set_hook(Box::new(|info| {
-        let (f, l) = info.location().map(|l| (l.file().to_string(), l.line())).unwrap_or(("?".into(), 0));
-        let msg = if let Some(s) = info.payload().downcast_ref::<&str>() {
-            s.to_string()
-        } else if let Some(s) = info.payload().downcast_ref::<String>() {
-            s.clone()
-        } else {
-            "?".into()
-        };
-        if let Ok(mut g) = LAST_PANIC.lock() {
-            *g = Some((f, l, msg));
-        }
-    }));
-}
-
-/// `fn` items of a source file as (line, name), by a light lexical scan (enough to name the enclosing function)
-fn fn_lines(path: &str) -> Vec<(u32, String)> {
-    let mut cache = SRC_CACHE.lock().unwrap();
-    if let Some(v) = cache.get(path) {
-        return v.clone();
-    }
-    let mut v = vec![];
-    if let Ok(src) = std::fs::read_to_string(path) {
-        for (n, line) in src.lines().enumerate() {
-            let t = line.trim_start();
-            if t.starts_with("//") {
-                continue;
-            }
-            if let Some(p) = t.find("fn ") {
-                let before_ok = p == 0 || t[..p].ends_with(' ') || t[..p].ends_with('(');
-                let name: String = t[p + 3..].chars().take_while(|c| c.is_alphanumeric() || *c == '_').collect();
-                if before_ok && !name.is_empty() {
-                    v.push((n as u32 + 1, name));
-                }
-            }
-        }
-    }
-    cache.insert(path.to_string(), v.clone());
-    v
-}
-
-fn norm_file(f: &str) -> String {
-    if let Some(p) = f.find("/registry/src/") {
-        // a dependency from the cargo registry: <crate>-<version>/src/...
-        let rest = &f[p + "/registry/src/".len()..];
-        let rest = rest.splitn(2, '/').nth(1).unwrap_or(rest);
-        return format!("registry:{}", rest);
-    }
-    if f.contains("/rustc/") || f.starts_with("library/") {
-        return "std".into();
-    }
-    match f.rfind("src/ir/").or_else(|| f.rfind("src/")) {
-        Some(p) => f[p..].to_string(),
-        None => f.to_string(),
-    }
-}
-
-fn norm_msg(m: &str) -> String {
-    let mut o = String::new();
-    let mut in_digits = false;
-    for c in m.chars() {
-        if c.is_ascii_digit() {
-            if !in_digits { o.push('#'); }
-            in_digits = true;
-        } else {
-            in_digits = false;
-            o.push(c);
-        }
-        if o.len() >= 70 { break; }
-    }
-    o
-}
-
-/// (class, key) of the recorded panic; key = "file::function::message"
-fn classify(p: &(String, u32, String)) -> (u64, String) {
-    let file = norm_file(&p.0);
-    let func = if file.starts_with("src/") {
-        let fl = fn_lines(&p.0);
-        fl.iter().rev().find(|(l, _)| *l <= p.1).map(|(_, n)| n.clone()).unwrap_or_else(|| "?".into())
-    } else {
-        "?".into()
-    };
-    let msg = norm_msg(&p.2);
-    for (k, f, fun, pre) in SITE_TABLE {
-        if file == *f && func == *fun && p.2.starts_with(pre) {
-            return (*k, format!("{}::{}::{}", f, fun, pre));
-        }
-    }
-    let key = format!("{}::{}::{}", file, func, msg);
-    (1_000_000 + fnv(&key) % 1_000_000, key)
-}
-
-#[derive(Clone, Debug, PartialEq)]
-enum Obs { Ok, Err, Panic(u64, String) }
-impl Obs {
-    fn coq(&self) -> String {
-        match self { Obs::Ok => "OOk".into(), Obs::Err => "OErr".into(), Obs::Panic(k, _) => format!("(OPanic {})", k) }
-    }
-    fn show(&self) -> String {
-        match self { Obs::Ok => "Ok".into(), Obs::Err => "Err".into(), Obs::Panic(k, s) => format!("PANIC[{} {}]", k, s) }
-    }
-}
-
-fn observe<T, E>(f: impl FnOnce() -> Result<T, E>) -> Obs {
-    *LAST_PANIC.lock().unwrap() = None;
-    match catch_unwind(AssertUnwindSafe(f)) {
-        Ok(Ok(_)) => Obs::Ok,
-        Ok(Err(_)) => Obs::Err,
-        Err(_) => {
-            let p = LAST_PANIC.lock().unwrap().clone().unwrap_or(("?".into(), 0, "?".into()));
-            let (k, key) = classify(&p);
-            Obs::Panic(k, key)
-        }
-    }
-}
-
-// ------------------------------------------------------------------------------------------------
-// binary helpers
-
-fn leb(mut v: u64, out: &mut Vec<u8>) {
-    loop {
-        let b = (v & 0x7f) as u8;
-        v >>= 7;
-        if v == 0 { out.push(b); break; }
-        out.push(b | 0x80);
-    }
-}
-fn leb_v(v: u64) -> Vec<u8> { let mut o = vec![]; leb(v, &mut o); o }
-fn read_leb(b: &[u8], pos: &mut usize) -> Option<u64> {
-    let mut r = 0u64;
-    let mut sh = 0;
-    loop {
-        let x = *b.get(*pos)?;
-        *pos += 1;
-        r |= ((x & 0x7f) as u64) << sh;
-        if x & 0x80 == 0 { return Some(r); }
-        sh += 7;
-        if sh > 35 { return None; }
-    }
-}
-const MOD_HDR: [u8; 8] = [0, 0x61, 0x73, 0x6d, 1, 0, 0, 0];
-const COMP_HDR: [u8; 8] = [0, 0x61, 0x73, 0x6d, 0x0d, 0, 1, 0];
-
-type Secs = Vec<(u8, Vec<u8>)>;
-fn assemble(hdr: &[u8; 8], secs: &Secs) -> Vec<u8> {
-    let mut o = hdr.to_vec();
-    for (id, body) in secs {
-        o.push(*id);
-        leb(body.len() as u64, &mut o);
-        o.extend_from_slice(body);
-    }
-    o
-}
-fn sec<S: we::Section>(s: &S) -> (u8, Vec<u8>) {
-    let mut v = vec![];
-    s.encode(&mut v);
-    let mut p = 0;
-    let _ = read_leb(&v, &mut p);
-    (s.id(), v[p..].to_vec())
-}
-fn custom(name: &str, data: &[u8]) -> (u8, Vec<u8>) {
-    let mut b = vec![];
-    leb(name.len() as u64, &mut b);
-    b.extend_from_slice(name.as_bytes());
-    b.extend_from_slice(data);
-    (0, b)
-}
+#[path = "../parseabs.rs"]
+mod parseabs;
+use parseabs::*;
 
 // ------------------------------------------------------------------------------------------------
 // generator of valid modules
@@ -828,270 +638,6 @@ fn mutate(r: &mut Rng, hdr: &[u8; 8], secs: &mut Secs, d: &mut String) -> Vec<u8
         None => {}
     }
     o
-}
-
-// ------------------------------------------------------------------------------------------------
-// the abstraction: what the glue code of Module::parse_internal / Component::parse_comp inspects
-
-fn b(x: bool) -> &'static str { coq_bool(x) }
-
-/// const expression as InitExpr::eval reads it: (operator classes in reading order, data after `end`)
-fn abs_cexpr(e: &wp::ConstExpr) -> String {
-    use wp::Operator::*;
-    let mut reader = e.get_operators_reader();
-    let mut ops: Vec<&str> = vec![];
-    let mut trailing = false;
-    loop {
-        match reader.read() {
-            Err(_) => { ops.push("XReadErr"); break; }
-            Ok(End) => { ops.push("XEnd"); trailing = !reader.eof(); break; }
-            Ok(RefNull { hty }) => {
-                // RefType::new(true, hty) is None only for an index that does not pack into 20 bits; the reader has packed it already
-                if wp::RefType::new(true, hty).is_none() { ops.push("XReadErr"); break; }
-                ops.push("XOk");
-            }
-            Ok(I32Const { .. }) | Ok(I64Const { .. }) | Ok(F32Const { .. }) | Ok(F64Const { .. }) | Ok(V128Const { .. }) | Ok(GlobalGet { .. })
-            | Ok(RefFunc { .. }) | Ok(StructNew { .. }) | Ok(StructNewDefault { .. }) | Ok(ArrayNew { .. }) | Ok(ArrayNewDefault { .. })
-            | Ok(ArrayNewFixed { .. }) | Ok(ArrayNewData { .. }) | Ok(ArrayNewElem { .. }) | Ok(RefI31) => ops.push("XOk"),
-            Ok(_) => { ops.push("XBad"); break; }
-        }
-        if ops.len() > 64 { return "([XOk], true)".into(); /* never an observed shape: makes the model answer Unmodelled */ }
-    }
-    format!("([{}], {})", ops.join("; "), b(trailing))
-}
-
-fn abs_namemap_ok(m: wp::NameMap) -> bool { m.into_iter().all(|x| x.is_ok()) }
-
-struct Abs { evs: Vec<String>, past_header: bool }
-
-fn abs_module(parser: wp::Parser, wasm: &[u8]) -> Abs {
-    let mut evs: Vec<String> = vec![];
-    let mut past_header = false;
-    for payload in parser.parse_all(wasm) {
-        let payload = match payload { Ok(p) => p, Err(_) => { evs.push("MErr".into()); break; } };
-        use wp::Payload::*;
-        match payload {
-            Version { num, .. } => { past_header = true; evs.push(format!("MVersion {}", num)); if num != 1 { break; } }
-            ImportSection(rd) => {
-                let mut nf = 0u64;
-                let mut ok = true;
-                for i in rd.into_iter() {
-                    match i { Ok(i) => { if let wp::TypeRef::Func(_) = i.ty { nf += 1; } } Err(_) => { ok = false; break; } }
-                }
-                evs.push(format!("MImports {} {}", nf, b(ok)));
-                if !ok { break; }
-            }
-            TypeSection(rd) => {
-                let mut kinds = vec![];
-                let mut ok = true;
-                for g in rd.into_iter() {
-                    match g {
-                        Ok(g) => for st in g.types() { kinds.push(matches!(st.composite_type.inner, wp::CompositeInnerType::Func(_))); },
-                        Err(_) => { ok = false; break; }
-                    }
-                }
-                evs.push(format!("MTypes {} {}", coq_list(&kinds, |k| b(*k).to_string()), b(ok)));
-                if !ok { break; }
-            }
-            DataSection(rd) => {
-                let mut items = vec![];
-                let mut stop = false;
-                for dseg in rd.into_iter() {
-                    match dseg {
-                        Err(_) => { items.push("DErr".to_string()); stop = true; break; }
-                        Ok(dseg) => match dseg.kind {
-                            wp::DataKind::Passive => items.push("DPassive".into()),
-                            wp::DataKind::Active { offset_expr, .. } => items.push(format!("DActive {}", abs_cexpr(&offset_expr))),
-                        },
-                    }
-                }
-                evs.push(format!("MData [{}]", items.join("; ")));
-                if stop { break; }
-            }
-            TableSection(rd) => { let ok = rd.into_iter().all(|x| x.is_ok()); evs.push(format!("MSimple {}", b(ok))); if !ok { break; } }
-            MemorySection(rd) => { let ok = rd.into_iter().all(|x| x.is_ok()); evs.push(format!("MSimple {}", b(ok))); if !ok { break; } }
-            FunctionSection(rd) => {
-                let mut tys = vec![];
-                let mut ok = true;
-                for x in rd.into_iter() { match x { Ok(t) => tys.push(t), Err(_) => { ok = false; break; } } }
-                if tys.len() > 4000 { evs.push("MUnmodelled".into()); break; }
-                evs.push(format!("MFuncs {} {}", coq_list(&tys, |t| t.to_string()), b(ok)));
-                if !ok { break; }
-            }
-            GlobalSection(rd) => {
-                let mut items = vec![];
-                let mut stop = false;
-                for g in rd.into_iter() {
-                    match g {
-                        Err(_) => { items.push("GErr".to_string()); stop = true; break; }
-                        Ok(g) => items.push(format!("GInit {}", abs_cexpr(&g.init_expr))),
-                    }
-                }
-                evs.push(format!("MGlobals [{}]", items.join("; ")));
-                if stop { break; }
-            }
-            ExportSection(rd) => { let ok = rd.into_iter().all(|x| x.is_ok()); evs.push(format!("MSimple {}", b(ok))); if !ok { break; } }
-            StartSection { .. } => evs.push("MStart".into()),
-            ElementSection(rd) => {
-                let mut ok = true;
-                for e in rd.into_iter() {
-                    match e {
-                        Err(_) => { ok = false; break; }
-                        Ok(e) => {
-                            let items_ok = match e.items {
-                                wp::ElementItems::Functions(fr) => fr.into_iter().all(|x| x.is_ok()),
-                                wp::ElementItems::Expressions(_, er) => er.into_iter().all(|x| x.is_ok()),
-                            };
-                            if !items_ok { ok = false; break; }
-                        }
-                    }
-                }
-                evs.push(format!("MSimple {}", b(ok)));
-                if !ok { break; }
-            }
-            DataCountSection { count, .. } => evs.push(format!("MDataCount {}", count)),
-            CodeSectionStart { count, .. } => evs.push(format!("MCodeStart {}", count)),
-            CodeSectionEntry(body) => {
-                let mut locals_ok = true;
-                match body.get_locals_reader() {
-                    Err(_) => locals_ok = false,
-                    Ok(lr) => {
-                        // (LocalsReader::read itself fails with "too many locals" when the running total passes u32::MAX,
-                        //  so wirm's `num_locals += count` cannot overflow)
-                        for l in lr.into_iter() { if l.is_err() { locals_ok = false; break; } }
-                    }
-                }
-                let mut ops_ok = true;
-                let mut last_end = true;
-                let mut nzmem = false;
-                if locals_ok {
-                    match body.get_operators_reader() {
-                        Err(_) => ops_ok = false,
-                        Ok(or) => match or.into_iter().collect::<Result<Vec<_>, _>>() {
-                            Err(_) => ops_ok = false,
-                            Ok(ops) => {
-                                last_end = ops.last().map_or(true, |o| matches!(o, wp::Operator::End));
-                                nzmem = ops.iter().any(|i| match i { wp::Operator::MemoryGrow { mem, .. } | wp::Operator::MemorySize { mem, .. } => *mem != 0, _ => false });
-                            }
-                        },
-                    }
-                }
-                evs.push(format!("MCodeEntry {} {} {} {}", b(locals_ok), b(ops_ok), b(last_end), b(nzmem)));
-                if !locals_ok || !ops_ok { break; }
-            }
-            TagSection(rd) => {
-                let items: Vec<bool> = rd.into_iter().map(|x| x.is_ok()).collect();
-                evs.push(format!("MTags {}", coq_list(&items, |k| b(*k).to_string())));
-            }
-            CustomSection(c) => match c.as_known() {
-                wp::KnownCustom::Name(nr) => {
-                    let mut subs = vec![];
-                    for s in nr {
-                        let s = match s { Ok(s) => s, Err(_) => { subs.push("NSErr".to_string()); break; } };
-                        match s {
-                            wp::Name::Function(names) => {
-                                let mut items = vec![];
-                                for n in names { match n { Ok(n) => items.push(format!("NIdx {}", n.index)), Err(_) => { items.push("NIErr".into()); break; } } }
-                                subs.push(format!("NSFunc [{}]", items.join("; ")));
-                            }
-                            wp::Name::Local(m) | wp::Name::Label(m) | wp::Name::Field(m) => {
-                                let mut items = vec![];
-                                for n in m { match n { Ok(n) => items.push(format!("IIMap {}", b(abs_namemap_ok(n.names)))), Err(_) => { items.push("IIErr".into()); break; } } }
-                                subs.push(format!("NSInd [{}]", items.join("; ")));
-                            }
-                            wp::Name::Type(m) | wp::Name::Table(m) | wp::Name::Memory(m) | wp::Name::Global(m) | wp::Name::Element(m) | wp::Name::Data(m) | wp::Name::Tag(m) => {
-                                subs.push(format!("NSMap {}", b(abs_namemap_ok(m))));
-                            }
-                            wp::Name::Module { .. } | wp::Name::Unknown { .. } => subs.push("NSOther".into()),
-                        }
-                    }
-                    evs.push(format!("MName [{}]", subs.join("; ")));
-                }
-                wp::KnownCustom::Producers(pr) => {
-                    let p = match pr.into_iter().next() {
-                        None => "PNone".to_string(),
-                        Some(Err(_)) => "PFieldErr".to_string(),
-                        Some(Ok(fld)) => format!("(PField {})", b(fld.values.into_iter().all(|x| x.is_ok()))),
-                    };
-                    evs.push(format!("MProducers {}", p));
-                }
-                _ => evs.push("MCustom".into()),
-            },
-            UnknownSection { .. } => { evs.push("MUnknown".into()); break; }
-            ModuleSection { .. } | InstanceSection(_) | CoreTypeSection(_) | ComponentSection { .. } | ComponentInstanceSection(_) | ComponentAliasSection(_)
-            | ComponentTypeSection(_) | ComponentCanonicalSection(_) | ComponentStartSection { .. } | ComponentImportSection(_) | ComponentExportSection(_) | End(_) => evs.push("MIgnored".into()),
-            _ => { evs.push("MUnmodelled".into()); break; }
-        }
-        if evs.len() > 3000 { evs.push("MUnmodelled".into()); break; }
-    }
-    Abs { evs, past_header }
-}
-
-fn abs_component(parser: wp::Parser, wasm: &[u8], start: usize, evs: &mut Vec<String>, depth: u32) -> bool {
-    // returns false when the walk must stop (an event after which wirm cannot continue)
-    let mut skip = 0u32; // nesting depth of the inline payloads of a child that has been handled recursively
-    for payload in parser.parse_all(wasm) {
-        // wirm tests `payload?` before it looks at its nesting stack: an Err payload at any depth is an Err
-        let payload = match payload { Ok(p) => p, Err(_) => { evs.push("CErr".into()); return false; } };
-        use wp::Payload::*;
-        if skip > 0 {
-            match payload {
-                ModuleSection { .. } | ComponentSection { .. } => skip += 1,
-                End(_) => skip -= 1,
-                _ => {}
-            }
-            continue;
-        }
-        macro_rules! items { ($rd:expr) => {{ let ok = $rd.into_iter().all(|x| x.is_ok()); evs.push(format!("CItems {}", b(ok))); if !ok { return false; } }}; }
-        match payload {
-            ComponentImportSection(rd) => items!(rd),
-            ComponentExportSection(rd) => items!(rd),
-            InstanceSection(rd) => items!(rd),
-            CoreTypeSection(rd) => items!(rd),
-            ComponentTypeSection(rd) => items!(rd),
-            ComponentInstanceSection(rd) => items!(rd),
-            ComponentAliasSection(rd) => items!(rd),
-            ComponentCanonicalSection(rd) => items!(rd),
-            ModuleSection { parser, unchecked_range } => {
-                let ok = unchecked_range.start >= start && unchecked_range.end - start <= wasm.len() && unchecked_range.start <= unchecked_range.end;
-                if !ok { evs.push("CModule false []".into()); return false; }
-                let a = abs_module(parser, &wasm[unchecked_range.start - start..unchecked_range.end - start]);
-                evs.push(format!("CModule true [{}]", a.evs.join("; ")));
-                skip = 1;
-            }
-            ComponentSection { parser, unchecked_range } => {
-                let ok = unchecked_range.start >= start && unchecked_range.end - start <= wasm.len() && unchecked_range.start <= unchecked_range.end;
-                evs.push(format!("CEnter {}", b(ok)));
-                if !ok { return false; }
-                if depth > 50 { evs.push("CUnmodelled".into()); return false; }
-                // the nested parse runs first; wirm stops at its first Err / panic (the model looks for the first failing event)
-                if !abs_component(parser, &wasm[unchecked_range.start - start..unchecked_range.end - start], unchecked_range.start, evs, depth + 1) {
-                    return false;
-                }
-                skip = 1;
-            }
-            CustomSection(c) => match c.as_known() {
-                wp::KnownCustom::ComponentName(nr) => {
-                    let mut subs = vec![];
-                    for s in nr {
-                        let s = match s { Ok(s) => s, Err(_) => { subs.push("CSErr".to_string()); break; } };
-                        use wp::ComponentName as CN;
-                        match s {
-                            CN::Component { .. } | CN::Unknown { .. } => subs.push("CSOther".into()),
-                            CN::CoreFuncs(m) | CN::CoreGlobals(m) | CN::CoreMemories(m) | CN::CoreTables(m) | CN::CoreTags(m) | CN::CoreModules(m) | CN::CoreInstances(m)
-                            | CN::CoreTypes(m) | CN::Types(m) | CN::Instances(m) | CN::Components(m) | CN::Funcs(m) | CN::Values(m) => subs.push(format!("CSMap {}", b(abs_namemap_ok(m)))),
-                        }
-                    }
-                    evs.push(format!("CName [{}]", subs.join("; ")));
-                }
-                _ => evs.push("CSkip".into()),
-            },
-            UnknownSection { .. } => { evs.push("CUnknown".into()); return false; }
-            _ => evs.push("CSkip".into()),
-        }
-        if evs.len() > 3000 { evs.push("CUnmodelled".into()); return false; }
-    }
-    true
 }
 
 // ------------------------------------------------------------------------------------------------
